@@ -112,6 +112,15 @@ func TestC17(t *testing.T) {
 		run("gradient", func(i int) { l.OnSample(0, int64(1000+i%50), i%80, i%13 == 0) }, func(int) { l.EstimatedLimit() }, func(int) { l.NotifyOnChange(cb) }, func(int) { s(l) }, func(int) { l.RTTNoLoad() })
 	}
 	{
+		// two separate instances used from different goroutines: anything they share behind the scenes (package-level state) must be safe too
+		a := limit.NewGradientLimitWithRegistry("ga", 50, 1, 200, 0.2, nil, 2, 1, nil, reg())
+		b := limit.NewGradientLimitWithRegistry("gb", 50, 1, 200, 0.2, nil, 2, 1, nil, reg())
+		va := limit.NewVegasLimitWithRegistry("va", 2, nil, 50, 1.0, nil, nil, nil, nil, nil, 1, nil, reg())
+		vb := limit.NewVegasLimitWithRegistry("vb", 2, nil, 50, 1.0, nil, nil, nil, nil, nil, 1, nil, reg())
+		run("two-instances", func(i int) { a.OnSample(0, int64(1000+i%50), i%80, false) }, func(i int) { b.OnSample(0, int64(1000+i%50), i%80, false) },
+			func(i int) { va.OnSample(0, int64(1000+i%50), i%5, false) }, func(i int) { vb.OnSample(0, int64(1000+i%50), i%5, false) })
+	}
+	{
 		l := limit.NewDefaultGradient2Limit("g2", nil, reg())
 		run("gradient2", func(i int) { l.OnSample(0, int64(1000+i%50), i%80, false) }, func(int) { l.EstimatedLimit() }, func(int) { l.NotifyOnChange(cb) }, func(int) { s(l) })
 	}
